@@ -1,4 +1,99 @@
-// unit `events` -- skeleton
+// unit `events` -- the two read-only list walks that compute what an observer of a shared type is told after a
+// transaction (yrs/src/types/mod.rs): `event_change_set` (Array / XmlFragment / XmlElement children: the `delta` of
+// ArrayEvent / XmlEvent) and `event_keys` (Map entries / XML attributes: the `keys` of MapEvent / XmlEvent).
+// Serves C11 (KERNEL ONLY: "the event is an exact edit script").
+//
+// THE PROPERTY, on views.  An item is seen as `ItemView { id, len, deleted, values }`; the transaction as two predicates
+// `added(id)` / `deleted(id)` (+ `before_state`).  Relative to one committed transaction an item
+//     was visible BEFORE  iff  !added(id) && (!deleted_flag || deleted(id))       (`vis_before`)
+//         [not created by this txn, and either still alive or tombstoned BY this txn; one deleted earlier was not
+//          visible, one added and deleted in the same txn never was]
+//     is  visible AFTER   iff  !deleted_flag                                      (`vis_after`)
+//   * event_change_set:  `before(list)` / `after(list)` = concatenation of `values` over the items visible before / after.
+//       CONTRACT  apply(delta, before(list)) == after(list)   and the script fits (never reads past the old content);
+//                 `added` / `deleted` id sets == ids of items (visible after && added) / (visible before && !visible after),
+//                 i.e. (!flag && added(id)) / (flag && deleted(id) && !added(id)), membership reading: `lemma_id_sets`;
+//                 canonical form: no two neighbouring entries of the same kind, no empty entry, no Retain at the end.
+//       `apply` is the cursor semantics of a change list (Retain(n) copies n old elements, Removed(n) skips n -- the event
+//       carries only the COUNT of removed elements --, Added(vs) emits vs, implicit trailing retain); `lemma_apply_nil` /
+//       `lemma_apply_cons` prove its head-first reading.
+//       Proof device (not part of the contract): a run-length builder (`feed` / `finish` over committed entries + one
+//       pending entry); `lemma_ecs_step` / `lemma_ecs_finish` show from the PROPERTY's side that feeding the entry an item
+//       stands for (`item_op`) keeps "run(script, before(done)) == (|before(done)|, after(done))"; the spliced hints only
+//       assert that the code's (delta, last_op) is that builder state.
+//   * event_keys (per key):  old value = the value of the RIGHTMOST item of the key's chain (entry included) that already
+//       existed before the txn, if that item was visible before (`key_old`); new value = the entry's value if it is visible
+//       after (`key_new`).
+//       CONTRACT  the map gets  Inserted(new) / Updated(old, new) / Removed(old) / no entry  for
+//                 (old, new) = (None, Some) / (Some, Some) / (Some, None) / (None, None),  and no entry when the very same item
+//                 is visible before and after (`key_change`).  `lemma_key_change_exact`: applying `key_change` to `key_old`
+//                 yields `key_new` and the old value it carries is `key_old`.  `lemma_key_change_literal` restates it in the
+//                 transaction's own terms (prev = nearest left neighbour not added by the txn; old exists iff
+//                 deleted(prev.id); an entry that is not new: Removed(last) iff deleted(entry.id)).
+//
+// ------------------------------------------------------------------------------------------------------------------
+// LOWERING (rule R15 of DESIGN.md 3.2) AND STAND-IN TYPES (everything not listed is extracted verbatim from /repo)
+//   ItemPtr      real: `struct ItemPtr(NonNull<Item>)`, Deref<Target = Item>.  here: `type ItemPtr<'a> = &'a Item<'a>`
+//                (read-only lowering: both functions only READ through the pointers).  ASSUMPTION A5: the pointees are alive,
+//                not mutated during the call, and following `.right` / `.left` terminates (here: by construction of an
+//                inductive value; the loops terminate by structural `decreases current` / `decreases prev`).
+//                Spelling: `.as_deref()` on an `Option<ItemPtr>` is the identity (SUB `.as_deref()` -> ``, logged, x5).
+//   Item         sliced to `id`, `len`, `left`, `right`, `content`, `info`.  DROPPED: origin, right_origin, parent, redone,
+//                parent_sub.  An immutable value cannot be doubly linked: `left` and `right` are two INDEPENDENT chains of this
+//                value; event_change_set follows only `.right` (view `list_of`), event_keys only `.left` (view `lefts`), and
+//                no function of the unit reads the other link (so for each function the other link is in effect dropped).
+//                `Item::{is_deleted, len}` and `ItemFlags::{check, is_deleted}` are the real bodies.
+//   ItemContent  ABSTRACTION: `struct ItemContent { values: Vec<Out> }` -- the values the content yields; `get_content()`
+//                returns them (`r@ == values`), `get_last()` the last one (real: nine-variant enum whose get_content /
+//                get_last build the `Out`s; for the countable, non-String contents of array / map items get_content has
+//                `len` elements and get_last is its last element).
+//   Out, Str, ClientID   opaque values with equality only (`Arc<str>` is spelled `Str` in the template-written header of
+//                the lifted step function; `Out: Default` because `unwrap_or_default` demands the bound).
+//   BranchPtr    `&'a Branch<'a>`; Branch sliced to `map`.  DROPPED: start, item, name, block_len, content_len, type_ref,
+//                observers, deep_observers, has_formatting.
+//   TransactionMut   ABSTRACT: trait `Txn` with uninterpreted `added(id)` / `deleted(id)` / `before_sv()`; `has_added`,
+//                `has_deleted`, `before_state` return them (bodiless trait methods; SUB `txn: &TransactionMut` -> `txn: &T`,
+//                `fn event_change_set` -> `fn event_change_set<T: Txn>`, logged).  Their relation to the real
+//                insert_set / delete_set / before_state (IdSet::contains: C16; StateVector::get: unit sv) is OUTSIDE this unit.
+//                `StateVector` is the abstract `SvApi` (`get(&client)`).
+//   ChangeSet    extracted; its fields are private, the contract reads them through `added_ids` / `deleted_ids` / `delta_seq`.
+//
+// HEAP ASSUMPTIONS A5' (stated as `requires`; they are facts about reachable document states, not about the code here):
+//   list_wf    (event_change_set) every item visible before or after holds its content: values.len() == len >= 1
+//              [items of an Array / XML child list are countable and not String / Format; GC replaces the content of a
+//               tombstone only AFTER the observers ran, so an item tombstoned by this very txn still holds its values]
+//   span bound (event_change_set) DOMAIN RESTRICTION: the block lengths of the list sum to <= u32::MAX (`removed + item.len()`
+//              and `retain + item.len()` are unchecked u32 additions; `Branch::block_len`, a u32, counts a part of that sum)
+//   chain_wf   (event_keys) M1 every item left of a key's entry is a tombstone (integrate deletes the left neighbour of a
+//              new rightmost entry and deletes a new item that has a right neighbour); M2 `before_state` and the insert set
+//              agree on whether the ENTRY is new (`added(id) <==> id.clock >= before_state[id.client]`); M3 the delete set
+//              and the entry's flag agree (`deleted(id) ==> flag`, and `added(id) && flag ==> deleted(id)`); M4 items visible
+//              before or after hold a value (so `get_last().unwrap()` cannot panic and `unwrap_or_default()` never defaults).
+//
+// TRUSTED (module vx_trusted, listed by the trust scanner): `axiom_id_key_model`, `axiom_str_key_model` (A4: derived
+//   Hash / Eq of `ID` and of the key type agree, i.e. they are lawful HashSet / HashMap keys).  No assume_specification had
+//   to be added: vstd specifies Option::{take, unwrap, cloned}, Option::unwrap_or_default (its Some case only -- enough,
+//   see M4), Vec::{new, with_capacity, push, append, clone}, HashSet::{new, insert}, HashMap::{get, insert}.
+//
+// NOT INGESTIBLE / NOT IN THE VERIFIED TEXT
+//   * event_keys as a whole: Verus rejects `continue` inside a `for` loop ("for-loops do not yet support continue").  The
+//     COMPLETE body of `for opt in keys_changed.iter()` (the statement `if let Some(key) = opt { .. }`) is lifted (R18
+//     statement region) into `event_keys_step(txn, target, opt, &mut keys)`; `continue` is spelled `return` there (SUB,
+//     logged: leaving the loop body == leaving the step function).  The loop itself (`HashMap::new()`, iteration over the
+//     HashSet, returning `keys`) is not verified text; `lemma_event_keys_fold` recombines the steps over ANY enumeration of
+//     `keys_changed` (order and repetitions do not matter): the result lists exactly the changed keys that have an entry
+//     item and a change, each with `key_change`.
+//   * who calls the two functions with which `start` / `keys_changed`, event dispatch, paths, text deltas: not here.
+//
+// FINDINGS: none -- under A5' the pinned code satisfies both contracts.  Dependencies worth knowing:
+//   * event_keys tests the TRANSACTION (has_deleted(entry.id), before_state) where the property speaks of the HEAP (the
+//     entry's tombstone flag, the insert set): M2 / M3 bridge that.  It tests `has_deleted(prev.id)` where the property asks
+//     "was prev visible before": M1 bridges that; `lemma_without_m1` exhibits the shape that M1 excludes:
+//         [prev: !added, flag unset, !deleted(prev.id)] <- [entry: added, flag set, deleted(entry.id)]
+//     there the property calls for Removed(last(prev)), the code reports nothing.  Not reachable: a new rightmost entry
+//     tombstones its left neighbour at integration (TransactionMut::integrate: `self.delete(left)`).
+//   * `unwrap_or_default()` would put `Out::default()` into the event as an "old value" if a prev that was visible before
+//     held no value; excluded by M4 (vstd leaves that case unspecified, so the contract is not provable without M4).
 #![allow(unused_imports, unused_variables, unused_mut, dead_code, unused_parens, unused_braces, unused_assignments)]
 use vstd::prelude::*;
 use std::collections::HashMap;
@@ -7,31 +102,76 @@ use std::collections::HashSet;
 verus! {
 
 /*@rules R10
-   SUB(from=Arc<str>;;to=Str)
    SUB(from=.as_deref();;to=)
    SUB(from=txn: &TransactionMut;;to=txn: &T)
 @*/
 
+// ---------------------------------------------------------------------------------------------
+// opaque stand-ins
+// ---------------------------------------------------------------------------------------------
 #[derive(PartialEq, Eq, Structural, Clone, Copy, Hash)]
 pub struct Str(pub u64);
+
+impl Str {
+    /// `Arc<str>::as_ref`
+    pub fn as_ref(&self) -> (r: &Str)
+        ensures *r == *self,
+    {
+        self
+    }
+}
 
 #[derive(PartialEq, Eq, Structural, Clone, Copy, Hash)]
 pub struct ClientID(pub u64);
 
-#[derive(PartialEq, Eq, Structural, Clone, Copy)]
+/// `crate::out::Out` (a value handed to the user): opaque, equality only
+#[derive(PartialEq, Eq, Structural, Clone, Copy, Default)]
 pub struct Out(pub u64);
 
 #[derive(PartialEq, Eq, Structural, Clone, Copy, Hash)]
 /*@extract yrs/src/block.rs | - | struct ID @*/
 
+pub mod vx_trusted {
+    use vstd::prelude::*;
+    use vstd::std_specs::hash::*;
+    use super::{ID, Str};
+
+    /// A4: the derived `Hash` and `Eq` of `ID` agree: `ID` is a lawful std HashSet key
+    #[verifier::external_body] pub broadcast proof fn axiom_id_key_model()
+        ensures
+            #[trigger] obeys_key_model::<ID>(),
+    {
+    }
+
+    /// A4: `Arc<str>` (here `Str`) is a lawful std HashMap key
+    #[verifier::external_body] pub broadcast proof fn axiom_str_key_model()
+        ensures
+            #[trigger] obeys_key_model::<Str>(),
+    {
+    }
+}
+use vx_trusted::*;
+
+broadcast use {axiom_id_key_model, axiom_str_key_model};
+
+// ---------------------------------------------------------------------------------------------
+// real declarations + the lowered item
+// ---------------------------------------------------------------------------------------------
 /*@extract yrs/src/block.rs | - | const ITEM_FLAG_DELETED @*/
 
 #[derive(PartialEq, Eq, Structural, Clone, Copy)]
 /*@extract yrs/src/block.rs | - | struct ItemFlags @*/
 
 impl ItemFlags {
-    pub closed spec fn bits(&self) -> u16 { self.0 }
-    pub closed spec fn deleted(&self) -> bool { self.bits() & ITEM_FLAG_DELETED == ITEM_FLAG_DELETED }
+    pub closed spec fn bits(&self) -> u16 {
+        self.0
+    }
+
+    /// the tombstone flag
+    pub closed spec fn deleted(&self) -> bool {
+        self.bits() & ITEM_FLAG_DELETED == ITEM_FLAG_DELETED
+    }
+
     /*@extract yrs/src/block.rs | impl ItemFlags | fn check
     @ret r
     @sig
@@ -45,18 +185,28 @@ impl ItemFlags {
     @*/
 }
 
+/// ABSTRACTION of `ItemContent`, see the table at the top
 pub struct ItemContent {
     pub values: Vec<Out>,
 }
 
 impl ItemContent {
+    /// `ItemContent::get_content`: all values of the content
     pub fn get_content(&self) -> (r: Vec<Out>)
         ensures r@ == self.values@,
     {
         self.values.clone()
     }
+
+    /// `ItemContent::get_last`: the last value, if there is one
+    pub fn get_last(&self) -> (r: Option<Out>)
+        ensures r == (if self.values@.len() > 0 { Some(self.values@.last()) } else { None }),
+    {
+        if self.values.len() > 0 { Some(self.values[self.values.len() - 1]) } else { None }
+    }
 }
 
+/// sliced + lowered, see the table at the top
 pub struct Item<'a> {
     pub id: ID,
     pub len: u32,
@@ -68,31 +218,937 @@ pub struct Item<'a> {
 
 pub type ItemPtr<'a> = &'a Item<'a>;
 
+/// sliced + lowered, see the table at the top
+pub struct Branch<'a> {
+    pub map: HashMap<Str, ItemPtr<'a>>,
+}
+
+pub type BranchPtr<'a> = &'a Branch<'a>;
+
+/// what the property sees of an item
+pub struct ItemView {
+    pub id: ID,
+    pub len: u32,
+    pub deleted: bool,
+    pub values: Seq<Out>,
+}
+
 impl<'a> Item<'a> {
+    pub open spec fn view_of(&self) -> ItemView {
+        ItemView { id: self.id, len: self.len, deleted: self.info.deleted(), values: self.content.values@ }
+    }
+
     /*@extract yrs/src/block.rs | impl Item | fn is_deleted
     @ret r
     @sig
-        ensures r == self.info.deleted(),
+        ensures r == self.view_of().deleted,
     @*/
 
     /*@extract yrs/src/block.rs | impl Item | fn len
     @ret r
     @sig
-        ensures r == self.len,
+        ensures r == self.view_of().len,
     @*/
 }
 
-pub trait Txn {
-    spec fn added(&self, id: ID) -> bool;
-    spec fn deleted(&self, id: ID) -> bool;
-
-    fn has_added(&self, id: &ID) -> (r: bool)
-        ensures r == self.added(*id);
-
-    fn has_deleted(&self, id: &ID) -> (r: bool)
-        ensures r == self.deleted(*id);
+/// the list from `start` rightwards (A5: the chain is finite -- here by construction of an inductive value)
+pub open spec fn list_of(start: Option<&Item>) -> Seq<ItemView>
+    decreases start,
+{
+    match start {
+        None => Seq::empty(),
+        Some(i) => seq![i.view_of()] + list_of(i.right),
+    }
 }
 
+/// the chain from `from` leftwards, nearest first
+pub open spec fn lefts(from: Option<&Item>) -> Seq<ItemView>
+    decreases from,
+{
+    match from {
+        None => Seq::empty(),
+        Some(i) => seq![i.view_of()] + lefts(i.left),
+    }
+}
+
+// ---------------------------------------------------------------------------------------------
+// the transaction, abstract
+// ---------------------------------------------------------------------------------------------
+/// `StateVector` as far as event_keys uses it (`StateVector::get` is verified in unit sv: absent means 0)
+pub trait SvApi {
+    spec fn clock_of(&self, client: ClientID) -> u32;
+
+    fn get(&self, client_id: &ClientID) -> (r: u32)
+        ensures
+            r == self.clock_of(*client_id),
+    ;
+}
+
+/// `TransactionMut` as far as the two functions use it
+pub trait Txn {
+    type SV: SvApi;
+
+    /// the item starting at `id` was created by this transaction (real: `insert_set.contains(id)`)
+    spec fn added(&self, id: ID) -> bool;
+
+    /// the item starting at `id` was tombstoned by this transaction (real: `delete_set.contains(id)`)
+    spec fn deleted(&self, id: ID) -> bool;
+
+    /// the state vector at the beginning of the transaction
+    spec fn before_sv(&self) -> Self::SV;
+
+    fn has_added(&self, id: &ID) -> (r: bool)
+        ensures
+            r == self.added(*id),
+    ;
+
+    fn has_deleted(&self, id: &ID) -> (r: bool)
+        ensures
+            r == self.deleted(*id),
+    ;
+
+    fn before_state(&self) -> (r: &Self::SV)
+        ensures
+            *r == self.before_sv(),
+    ;
+}
+
+// ---------------------------------------------------------------------------------------------
+// specification, part 1: sequences (event_change_set)
+// ---------------------------------------------------------------------------------------------
+pub open spec fn vis_before<T: Txn>(t: &T, v: ItemView) -> bool {
+    !t.added(v.id) && (!v.deleted || t.deleted(v.id))
+}
+
+pub open spec fn vis_after(v: ItemView) -> bool {
+    !v.deleted
+}
+
+/// the content the observer saw before the transaction
+pub open spec fn before<T: Txn>(t: &T, xs: Seq<ItemView>) -> Seq<Out>
+    decreases xs.len(),
+{
+    if xs.len() == 0 {
+        Seq::empty()
+    } else {
+        before(t, xs.drop_last()) + (if vis_before(t, xs.last()) { xs.last().values } else { Seq::empty() })
+    }
+}
+
+/// the content readable after the transaction
+pub open spec fn after(xs: Seq<ItemView>) -> Seq<Out>
+    decreases xs.len(),
+{
+    if xs.len() == 0 {
+        Seq::empty()
+    } else {
+        after(xs.drop_last()) + (if vis_after(xs.last()) { xs.last().values } else { Seq::empty() })
+    }
+}
+
+/// ids of the items that became visible
+pub open spec fn added_set<T: Txn>(t: &T, xs: Seq<ItemView>) -> Set<ID>
+    decreases xs.len(),
+{
+    if xs.len() == 0 {
+        Set::empty()
+    } else if vis_after(xs.last()) && t.added(xs.last().id) {
+        added_set(t, xs.drop_last()).insert(xs.last().id)
+    } else {
+        added_set(t, xs.drop_last())
+    }
+}
+
+/// ids of the items that stopped being visible
+pub open spec fn deleted_set<T: Txn>(t: &T, xs: Seq<ItemView>) -> Set<ID>
+    decreases xs.len(),
+{
+    if xs.len() == 0 {
+        Set::empty()
+    } else if vis_before(t, xs.last()) && !vis_after(xs.last()) {
+        deleted_set(t, xs.drop_last()).insert(xs.last().id)
+    } else {
+        deleted_set(t, xs.drop_last())
+    }
+}
+
+/// sum of the block lengths
+pub open spec fn span(xs: Seq<ItemView>) -> nat
+    decreases xs.len(),
+{
+    if xs.len() == 0 { 0 } else { span(xs.drop_last()) + xs.last().len as nat }
+}
+
+/// A5' for one item: a visible item holds its content
+pub open spec fn item_wf<T: Txn>(t: &T, v: ItemView) -> bool {
+    vis_before(t, v) || vis_after(v) ==> v.values.len() == v.len && v.len >= 1
+}
+
+pub open spec fn list_wf<T: Txn>(t: &T, xs: Seq<ItemView>) -> bool {
+    forall|i: int| 0 <= i < xs.len() ==> item_wf(t, #[trigger] xs[i])
+}
+
+/// ghost view of `Change`
+pub enum Op {
+    Added(Seq<Out>),
+    Removed(nat),
+    Retain(nat),
+}
+
+/// where a reader of the old content stands and what it has produced so far
+pub struct Cursor {
+    pub pos: nat,
+    pub out: Seq<Out>,
+}
+
+/// applying a change list to `src`, one entry after the other
+pub open spec fn run(d: Seq<Op>, src: Seq<Out>) -> Cursor
+    decreases d.len(),
+{
+    if d.len() == 0 {
+        Cursor { pos: 0, out: Seq::empty() }
+    } else {
+        let c = run(d.drop_last(), src);
+        match d.last() {
+            Op::Retain(n) => Cursor { pos: c.pos + n, out: c.out + src.subrange(c.pos as int, (c.pos + n) as int) },
+            Op::Removed(n) => Cursor { pos: c.pos + n, out: c.out },
+            Op::Added(vs) => Cursor { pos: c.pos, out: c.out + vs },
+        }
+    }
+}
+
+/// the script never reads past the end of the old content
+pub open spec fn fits(d: Seq<Op>, src: Seq<Out>) -> bool {
+    run(d, src).pos <= src.len()
+}
+
+/// the new content: what the entries produce, then the untouched rest (implicit trailing retain)
+pub open spec fn apply(d: Seq<Op>, src: Seq<Out>) -> Seq<Out> {
+    run(d, src).out + src.skip(run(d, src).pos as int)
+}
+
+pub open spec fn kind(o: Op) -> int {
+    match o {
+        Op::Added(_) => 0,
+        Op::Removed(_) => 1,
+        Op::Retain(_) => 2,
+    }
+}
+
+pub open spec fn size(o: Op) -> nat {
+    match o {
+        Op::Added(vs) => vs.len(),
+        Op::Removed(n) => n,
+        Op::Retain(n) => n,
+    }
+}
+
+pub open spec fn alternating(d: Seq<Op>) -> bool {
+    forall|i: int, j: int| 0 <= i && j == i + 1 && j < d.len() ==> kind(#[trigger] d[i]) != kind(#[trigger] d[j])
+}
+
+pub open spec fn all_nonempty(d: Seq<Op>) -> bool {
+    forall|i: int| 0 <= i < d.len() ==> size(#[trigger] d[i]) > 0
+}
+
+/// run-length canonical form
+pub open spec fn canonical(d: Seq<Op>) -> bool {
+    &&& alternating(d)
+    &&& all_nonempty(d)
+    &&& d.len() > 0 ==> !(d.last() is Retain)
+}
+
+pub open spec fn op_of(c: Change) -> Op {
+    match c {
+        Change::Added(v) => Op::Added(v@),
+        Change::Removed(n) => Op::Removed(n as nat),
+        Change::Retain(n) => Op::Retain(n as nat),
+    }
+}
+
+pub open spec fn ops_of(d: Seq<Change>) -> Seq<Op> {
+    d.map_values(|c: Change| op_of(c))
+}
+
+pub open spec fn pend_of(o: Option<Change>) -> Option<Op> {
+    match o {
+        None => None,
+        Some(c) => Some(op_of(c)),
+    }
+}
+
+/// a run-length builder: the committed entries and the entry still being grown
+pub open spec fn all_ops(cm: Seq<Op>, pend: Option<Op>) -> Seq<Op> {
+    match pend {
+        None => cm,
+        Some(o) => cm.push(o),
+    }
+}
+
+/// the entry the next item gives rise to (None: the item is invisible before and after)
+pub open spec fn item_op<T: Txn>(t: &T, v: ItemView) -> Option<Op> {
+    if vis_before(t, v) && vis_after(v) {
+        Some(Op::Retain(v.len as nat))
+    } else if vis_before(t, v) {
+        Some(Op::Removed(v.len as nat))
+    } else if vis_after(v) {
+        Some(Op::Added(v.values))
+    } else {
+        None
+    }
+}
+
+pub open spec fn join(a: Op, b: Op) -> Op {
+    match (a, b) {
+        (Op::Added(x), Op::Added(y)) => Op::Added(x + y),
+        (Op::Removed(x), Op::Removed(y)) => Op::Removed(x + y),
+        (Op::Retain(x), Op::Retain(y)) => Op::Retain(x + y),
+        _ => b,
+    }
+}
+
+/// feeding one more entry to the builder
+pub open spec fn feed(cm: Seq<Op>, pend: Option<Op>, o: Option<Op>) -> (Seq<Op>, Option<Op>) {
+    match o {
+        None => (cm, pend),
+        Some(b) => match pend {
+            None => (cm, Some(b)),
+            Some(a) => if kind(a) == kind(b) { (cm, Some(join(a, b))) } else { (cm.push(a), Some(b)) },
+        },
+    }
+}
+
+/// the final flush: a trailing Retain is implicit
+pub open spec fn finish(cm: Seq<Op>, pend: Option<Op>) -> Seq<Op> {
+    match pend {
+        None => cm,
+        Some(Op::Retain(_)) => cm,
+        Some(o) => cm.push(o),
+    }
+}
+
+/// what is true of the builder after the items `done`
+pub open spec fn ecs_inv<T: Txn>(t: &T, done: Seq<ItemView>, d: Seq<Op>) -> bool {
+    &&& run(d, before(t, done)) == Cursor { pos: before(t, done).len(), out: after(done) }
+    &&& alternating(d)
+    &&& all_nonempty(d)
+    &&& d.len() > 0 ==> size(d.last()) <= span(done)
+    &&& before(t, done).len() <= span(done)
+}
+
+// ---- lemmas about sequences
+pub proof fn lemma_push_drop_last<A>(s: Seq<A>, a: A)
+    ensures
+        s.push(a).drop_last() == s,
+        s.push(a).last() == a,
+{
+    assert(s.push(a).drop_last() =~= s);
+}
+
+pub proof fn lemma_views_push<T: Txn>(t: &T, xs: Seq<ItemView>, v: ItemView)
+    ensures
+        before(t, xs.push(v)) == before(t, xs) + (if vis_before(t, v) { v.values } else { Seq::empty() }),
+        after(xs.push(v)) == after(xs) + (if vis_after(v) { v.values } else { Seq::empty() }),
+        span(xs.push(v)) == span(xs) + v.len as nat,
+        added_set(t, xs.push(v)) == (if vis_after(v) && t.added(v.id) { added_set(t, xs).insert(v.id) } else { added_set(t, xs) }),
+        deleted_set(t, xs.push(v)) == (if vis_before(t, v) && !vis_after(v) { deleted_set(t, xs).insert(v.id) } else { deleted_set(t, xs) }),
+{
+    lemma_push_drop_last(xs, v);
+}
+
+pub proof fn lemma_span_cons(v: ItemView, ys: Seq<ItemView>)
+    ensures
+        span(seq![v] + ys) == v.len as nat + span(ys),
+    decreases ys.len(),
+{
+    if ys.len() == 0 {
+        assert(seq![v] + ys =~= Seq::<ItemView>::empty().push(v));
+        lemma_push_drop_last(Seq::<ItemView>::empty(), v);
+        assert(span(Seq::<ItemView>::empty().push(v)) == span(Seq::<ItemView>::empty()) + v.len as nat);
+    } else {
+        lemma_span_cons(v, ys.drop_last());
+        assert((seq![v] + ys).drop_last() =~= seq![v] + ys.drop_last());
+    }
+}
+
+/// `run` only looks at the part of the source it has consumed
+pub proof fn lemma_run_extend(d: Seq<Op>, src: Seq<Out>, more: Seq<Out>)
+    requires
+        run(d, src).pos <= src.len(),
+    ensures
+        run(d, src + more) == run(d, src),
+    decreases d.len(),
+{
+    if d.len() > 0 {
+        let c = run(d.drop_last(), src);
+        lemma_run_pos_monotone(d, src);
+        lemma_run_extend(d.drop_last(), src, more);
+        match d.last() {
+            Op::Retain(n) => {
+                assert((src + more).subrange(c.pos as int, (c.pos + n) as int) =~= src.subrange(c.pos as int, (c.pos + n) as int));
+            },
+            _ => {},
+        }
+    }
+}
+
+pub proof fn lemma_run_pos_monotone(d: Seq<Op>, src: Seq<Out>)
+    ensures
+        d.len() > 0 ==> run(d.drop_last(), src).pos <= run(d, src).pos,
+{
+}
+
+pub proof fn lemma_run_push(d: Seq<Op>, o: Op, src: Seq<Out>)
+    ensures
+        run(d.push(o), src) == (match o {
+            Op::Retain(n) => Cursor { pos: run(d, src).pos + n, out: run(d, src).out + src.subrange(run(d, src).pos as int, (run(d, src).pos + n) as int) },
+            Op::Removed(n) => Cursor { pos: run(d, src).pos + n, out: run(d, src).out },
+            Op::Added(vs) => Cursor { pos: run(d, src).pos, out: run(d, src).out + vs },
+        }),
+{
+    lemma_push_drop_last(d, o);
+}
+
+/// head-first reading of `apply`, 1: the empty script keeps everything
+pub proof fn lemma_apply_nil(src: Seq<Out>)
+    ensures
+        apply(Seq::<Op>::empty(), src) == src,
+        fits(Seq::<Op>::empty(), src),
+{
+    assert(apply(Seq::<Op>::empty(), src) =~= src);
+}
+
+/// the state of the cursor after a first entry `o` followed by the script `d`
+pub proof fn lemma_run_cons(o: Op, d: Seq<Op>, src: Seq<Out>)
+    requires
+        size(o) <= src.len() || o is Added,
+    ensures
+        ({
+            let n: nat = if o is Added { 0 } else { size(o) };
+            let head: Seq<Out> = match o { Op::Added(vs) => vs, Op::Removed(_) => Seq::empty(), Op::Retain(k) => src.take(k as int) };
+            &&& run(seq![o] + d, src).pos == n + run(d, src.skip(n as int)).pos
+            &&& fits(d, src.skip(n as int)) ==> run(seq![o] + d, src).out == head + run(d, src.skip(n as int)).out
+            &&& fits(d, src.skip(n as int)) <==> fits(seq![o] + d, src)
+        }),
+    decreases d.len(),
+{
+    let n: nat = if o is Added { 0 } else { size(o) };
+    let rest = src.skip(n as int);
+    if d.len() == 0 {
+        assert(seq![o] + d =~= Seq::<Op>::empty().push(o));
+        lemma_run_push(Seq::<Op>::empty(), o, src);
+        match o {
+            Op::Retain(k) => {
+                assert(Seq::<Out>::empty() + src.subrange(0, k as int) =~= src.take(k as int) + Seq::<Out>::empty());
+            },
+            Op::Added(vs) => {
+                assert(Seq::<Out>::empty() + vs =~= vs + Seq::<Out>::empty());
+            },
+            Op::Removed(_) => {
+                assert(Seq::<Out>::empty() =~= Seq::<Out>::empty() + Seq::<Out>::empty());
+            },
+        }
+    } else {
+        let dl = d.drop_last();
+        let l = d.last();
+        lemma_run_cons(o, dl, src);
+        assert(seq![o] + d =~= (seq![o] + dl).push(l));
+        assert(d =~= dl.push(l));
+        lemma_run_push(seq![o] + dl, l, src);
+        lemma_run_push(dl, l, rest);
+        lemma_run_pos_monotone(d, rest);
+        if fits(d, rest) {
+            let head: Seq<Out> = match o { Op::Added(vs) => vs, Op::Removed(_) => Seq::empty(), Op::Retain(k) => src.take(k as int) };
+            let c = run(dl, rest);
+            match l {
+                Op::Retain(k) => {
+                    assert(src.subrange((n + c.pos) as int, (n + c.pos + k) as int) =~= rest.subrange(c.pos as int, (c.pos + k) as int));
+                    assert((head + c.out) + rest.subrange(c.pos as int, (c.pos + k) as int) =~= head + (c.out + rest.subrange(c.pos as int, (c.pos + k) as int)));
+                },
+                Op::Added(vs) => {
+                    assert((head + c.out) + vs =~= head + (c.out + vs));
+                },
+                Op::Removed(_) => {},
+            }
+        }
+    }
+}
+
+/// head-first reading of `apply`, 2: Retain(n) copies n elements, Removed(n) skips n, Added(vs) emits vs
+pub proof fn lemma_apply_cons(o: Op, d: Seq<Op>, src: Seq<Out>)
+    requires
+        fits(seq![o] + d, src),
+        size(o) <= src.len() || o is Added,
+    ensures
+        apply(seq![o] + d, src) == (match o {
+            Op::Retain(n) => src.take(n as int) + apply(d, src.skip(n as int)),
+            Op::Removed(n) => apply(d, src.skip(n as int)),
+            Op::Added(vs) => vs + apply(d, src),
+        }),
+{
+    lemma_run_cons(o, d, src);
+    let n: nat = if o is Added { 0 } else { size(o) };
+    let rest = src.skip(n as int);
+    let c = run(d, rest);
+    assert(src.skip((n + c.pos) as int) =~= rest.skip(c.pos as int));
+    match o {
+        Op::Retain(k) => {
+            assert((src.take(k as int) + c.out) + rest.skip(c.pos as int) =~= src.take(k as int) + (c.out + rest.skip(c.pos as int)));
+        },
+        Op::Removed(_) => {
+            assert((Seq::<Out>::empty() + c.out) + rest.skip(c.pos as int) =~= c.out + rest.skip(c.pos as int));
+        },
+        Op::Added(vs) => {
+            assert(rest =~= src);
+            assert((vs + c.out) + rest.skip(c.pos as int) =~= vs + (c.out + rest.skip(c.pos as int)));
+        },
+    }
+}
+
+// ---- the builder keeps `ecs_inv`
+pub proof fn lemma_ecs_init<T: Txn>(t: &T)
+    ensures
+        ecs_inv(t, Seq::<ItemView>::empty(), all_ops(Seq::<Op>::empty(), None)),
+        added_set(t, Seq::<ItemView>::empty()) == Set::<ID>::empty(),
+        deleted_set(t, Seq::<ItemView>::empty()) == Set::<ID>::empty(),
+{
+}
+
+/// THE STEP, from the property's side: one more item `v`; the builder is fed the entry that `v` stands for
+pub proof fn lemma_ecs_step<T: Txn>(t: &T, done: Seq<ItemView>, v: ItemView, cm: Seq<Op>, pend: Option<Op>)
+    requires
+        ecs_inv(t, done, all_ops(cm, pend)),
+        pend is None ==> cm.len() == 0,
+        item_wf(t, v),
+    ensures
+        ({
+            let f = feed(cm, pend, item_op(t, v));
+            &&& ecs_inv(t, done.push(v), all_ops(f.0, f.1))
+            &&& f.1 is None ==> f.0.len() == 0
+        }),
+{
+    let d = all_ops(cm, pend);
+    let src = before(t, done);
+    let f = feed(cm, pend, item_op(t, v));
+    let d2 = all_ops(f.0, f.1);
+    let src2 = before(t, done.push(v));
+    lemma_views_push(t, done, v);
+    let more: Seq<Out> = if vis_before(t, v) { v.values } else { Seq::empty() };
+    lemma_run_extend(d, src, more);
+    match item_op(t, v) {
+        None => {
+            assert(src2 =~= src);
+            assert(after(done.push(v)) =~= after(done));
+        },
+        Some(b) => {
+            // the committed prefix and its cursor
+            let pre: Seq<Op> = match pend { Some(a) => if kind(a) == kind(b) { cm } else { cm.push(a) }, None => cm };
+            let last: Op = match pend { Some(a) => if kind(a) == kind(b) { join(a, b) } else { b }, None => b };
+            assert(d2 == pre.push(last));
+            lemma_run_push(pre, last, src2);
+            lemma_push_drop_last(pre, last);
+            if pend is Some && kind(pend.unwrap()) == kind(b) {
+                let a = pend.unwrap();
+                assert(d == cm.push(a));
+                lemma_run_push(cm, a, src2);
+                lemma_push_drop_last(cm, a);
+                let c = run(cm, src2);
+                match (a, b) {
+                    (Op::Retain(x), Op::Retain(y)) => {
+                        assert(src2.subrange(c.pos as int, (c.pos + x + y) as int) =~= src2.subrange(c.pos as int, (c.pos + x) as int) + v.values);
+                        assert(c.out + (src2.subrange(c.pos as int, (c.pos + x) as int) + v.values) =~= (c.out + src2.subrange(c.pos as int, (c.pos + x) as int)) + v.values);
+                    },
+                    (Op::Added(x), Op::Added(y)) => {
+                        assert(c.out + (x + y) =~= (c.out + x) + y);
+                        assert(src2 =~= src);
+                    },
+                    (Op::Removed(x), Op::Removed(y)) => {
+                        assert(after(done.push(v)) =~= after(done));
+                    },
+                    _ => {},
+                }
+                assert forall|i: int, j: int| 0 <= i && j == i + 1 && j < d2.len() implies kind(#[trigger] d2[i]) != kind(#[trigger] d2[j]) by {
+                    assert(kind(d[i]) != kind(d[j]));
+                    assert(d2[i] == d[i] || i == d2.len() - 1);
+                }
+                assert forall|i: int| 0 <= i < d2.len() implies size(#[trigger] d2[i]) > 0 by {
+                    if i < d2.len() - 1 {
+                        assert(d2[i] == d[i]);
+                    } else {
+                        assert(size(d[i]) > 0);
+                    }
+                }
+            } else {
+                assert(pre == d);
+                let c = run(d, src2);
+                match b {
+                    Op::Retain(y) => {
+                        assert(src2.subrange(c.pos as int, (c.pos + y) as int) =~= v.values);
+                    },
+                    Op::Added(y) => {
+                        assert(src2 =~= src);
+                    },
+                    Op::Removed(y) => {
+                        assert(after(done.push(v)) =~= after(done));
+                    },
+                }
+                assert forall|i: int, j: int| 0 <= i && j == i + 1 && j < d2.len() implies kind(#[trigger] d2[i]) != kind(#[trigger] d2[j]) by {
+                    if j < d.len() {
+                        assert(kind(d[i]) != kind(d[j]));
+                    } else {
+                        // the new last entry follows the old pending one, of a different kind
+                        lemma_push_drop_last(cm, pend.unwrap());
+                        assert(d[i] == pend.unwrap());
+                    }
+                }
+                assert forall|i: int| 0 <= i < d2.len() implies size(#[trigger] d2[i]) > 0 by {
+                    if i < d.len() {
+                        assert(size(d[i]) > 0);
+                    }
+                }
+            }
+        },
+    }
+}
+
+/// THE END: after the last item the flushed script is the exact, canonical edit script
+pub proof fn lemma_ecs_finish<T: Txn>(t: &T, xs: Seq<ItemView>, cm: Seq<Op>, pend: Option<Op>)
+    requires
+        ecs_inv(t, xs, all_ops(cm, pend)),
+        pend is None ==> cm.len() == 0,
+    ensures
+        fits(finish(cm, pend), before(t, xs)),
+        apply(finish(cm, pend), before(t, xs)) == after(xs),
+        canonical(finish(cm, pend)),
+{
+    let d = all_ops(cm, pend);
+    let src = before(t, xs);
+    let r = finish(cm, pend);
+    match pend {
+        Some(Op::Retain(n)) => {
+            lemma_run_push(cm, Op::Retain(n), src);
+            lemma_push_drop_last(cm, Op::Retain(n));
+            let c = run(cm, src);
+            assert(src.subrange(c.pos as int, (c.pos + n) as int) =~= src.skip(c.pos as int));
+            assert forall|i: int, j: int| 0 <= i && j == i + 1 && j < r.len() implies kind(#[trigger] r[i]) != kind(#[trigger] r[j]) by {
+                assert(kind(d[i]) != kind(d[j]));
+            }
+            assert forall|i: int| 0 <= i < r.len() implies size(#[trigger] r[i]) > 0 by {
+                assert(size(d[i]) > 0);
+            }
+            if r.len() > 0 {
+                let i = r.len() - 1;
+                assert(kind(d[i]) != kind(d[i + 1]));
+            }
+        },
+        _ => {
+            assert(r == d);
+            if pend is Some {
+                lemma_push_drop_last(cm, pend.unwrap());
+            }
+            assert(src.skip(src.len() as int) =~= Seq::<Out>::empty());
+            assert(after(xs) + Seq::<Out>::empty() =~= after(xs));
+        },
+    }
+}
+
+/// membership reading of the two id sets
+pub proof fn lemma_id_sets<T: Txn>(t: &T, xs: Seq<ItemView>, id: ID)
+    ensures
+        added_set(t, xs).contains(id) <==> exists|i: int| 0 <= i < xs.len() && (#[trigger] xs[i]).id == id && vis_after(xs[i]) && t.added(id),
+        deleted_set(t, xs).contains(id) <==> exists|i: int| 0 <= i < xs.len() && (#[trigger] xs[i]).id == id && vis_before(t, xs[i]) && !vis_after(xs[i]),
+    decreases xs.len(),
+{
+    if xs.len() > 0 {
+        let p = xs.drop_last();
+        lemma_id_sets(t, p, id);
+        let n = xs.len() - 1;
+        if added_set(t, p).contains(id) {
+            let i = choose|i: int| 0 <= i < p.len() && (#[trigger] p[i]).id == id && vis_after(p[i]) && t.added(id);
+            assert(xs[i] == p[i]);
+        }
+        if deleted_set(t, p).contains(id) {
+            let i = choose|i: int| 0 <= i < p.len() && (#[trigger] p[i]).id == id && vis_before(t, p[i]) && !vis_after(p[i]);
+            assert(xs[i] == p[i]);
+        }
+        if exists|i: int| 0 <= i < xs.len() && (#[trigger] xs[i]).id == id && vis_after(xs[i]) && t.added(id) {
+            let i = choose|i: int| 0 <= i < xs.len() && (#[trigger] xs[i]).id == id && vis_after(xs[i]) && t.added(id);
+            if i < n {
+                assert(p[i] == xs[i]);
+            }
+        }
+        if exists|i: int| 0 <= i < xs.len() && (#[trigger] xs[i]).id == id && vis_before(t, xs[i]) && !vis_after(xs[i]) {
+            let i = choose|i: int| 0 <= i < xs.len() && (#[trigger] xs[i]).id == id && vis_before(t, xs[i]) && !vis_after(xs[i]);
+            if i < n {
+                assert(p[i] == xs[i]);
+            }
+        }
+        assert(xs[n] == xs.last());
+    }
+}
+
+// ---------------------------------------------------------------------------------------------
+// specification, part 2: one key of a map (event_keys)
+// ---------------------------------------------------------------------------------------------
+/// the nearest item of `ls` that already existed before the transaction
+pub open spec fn prev_of<T: Txn>(t: &T, ls: Seq<ItemView>) -> Option<ItemView>
+    decreases ls.len(),
+{
+    if ls.len() == 0 {
+        None
+    } else if !t.added(ls[0].id) {
+        Some(ls[0])
+    } else {
+        prev_of(t, ls.skip(1))
+    }
+}
+
+/// the key's chain, entry first
+pub open spec fn chain(e: &Item) -> Seq<ItemView> {
+    seq![e.view_of()] + lefts(e.left)
+}
+
+/// what the observer saw under the key before the transaction: the value of the rightmost item that already existed,
+/// if it was visible
+pub open spec fn key_old<T: Txn>(t: &T, e: &Item) -> Option<Out> {
+    match prev_of(t, chain(e)) {
+        Some(p) => if vis_before(t, p) { Some(p.values.last()) } else { None },
+        None => None,
+    }
+}
+
+/// what is readable under the key after the transaction
+pub open spec fn key_new(e: &Item) -> Option<Out> {
+    if vis_after(e.view_of()) { Some(e.view_of().values.last()) } else { None }
+}
+
+/// the same item is visible before and after: nothing happened to the key
+pub open spec fn key_unchanged<T: Txn>(t: &T, e: &Item) -> bool {
+    !t.added(e.id) && vis_after(e.view_of())
+}
+
+/// THE PROPERTY for one key whose entry item is `e`
+pub open spec fn key_change<T: Txn>(t: &T, e: &Item) -> Option<EntryChange> {
+    if key_unchanged(t, e) {
+        None
+    } else {
+        match (key_old(t, e), key_new(e)) {
+            (None, Some(n)) => Some(EntryChange::Inserted(n)),
+            (Some(o), Some(n)) => Some(EntryChange::Updated(o, n)),
+            (Some(o), None) => Some(EntryChange::Removed(o)),
+            (None, None) => None,
+        }
+    }
+}
+
+/// applying a key's reported change to the value seen before
+pub open spec fn apply_key(old: Option<Out>, c: Option<EntryChange>) -> Option<Out> {
+    match c {
+        None => old,
+        Some(EntryChange::Inserted(n)) => Some(n),
+        Some(EntryChange::Updated(_, n)) => Some(n),
+        Some(EntryChange::Removed(_)) => None,
+    }
+}
+
+/// the old value a change claims
+pub open spec fn claimed_old(c: EntryChange) -> Option<Out> {
+    match c {
+        EntryChange::Inserted(_) => None,
+        EntryChange::Updated(o, _) => Some(o),
+        EntryChange::Removed(o) => Some(o),
+    }
+}
+
+/// `key_change` IS the exact edit of the key: applied to the value seen before it yields the value readable after, the
+/// old value it carries is the value seen before, and "no entry" means the value did not change
+pub proof fn lemma_key_change_exact<T: Txn>(t: &T, e: &Item)
+    ensures
+        apply_key(key_old(t, e), key_change(t, e)) == key_new(e),
+        key_change(t, e) is Some ==> claimed_old(key_change(t, e).unwrap()) == key_old(t, e),
+        key_change(t, e) is None ==> key_old(t, e) == key_new(e),
+{
+    assert(chain(e)[0] == e.view_of());
+}
+
+/// the entry item was created by this transaction, as `event_keys` decides it
+pub open spec fn is_new<T: Txn>(t: &T, id: ID) -> bool {
+    id.clock >= t.before_sv().clock_of(id.client)
+}
+
+/// A5' for a key's chain (M1..M4 of the header)
+pub open spec fn chain_wf<T: Txn>(t: &T, e: &Item) -> bool {
+    // M1: everything left of the entry is a tombstone
+    &&& forall|i: int| 0 <= i < lefts(e.left).len() ==> (#[trigger] lefts(e.left)[i]).deleted
+    // M2: before_state and the insert set agree on the entry
+    &&& t.added(e.id) <==> is_new(t, e.id)
+    // M3: the delete set and the entry's flag agree
+    &&& t.deleted(e.id) ==> e.view_of().deleted
+    &&& t.added(e.id) && e.view_of().deleted ==> t.deleted(e.id)
+    // M4: visible items hold a value
+    &&& forall|i: int| 0 <= i < chain(e).len() && (vis_before(t, #[trigger] chain(e)[i]) || vis_after(chain(e)[i])) ==> chain(e)[i].values.len() > 0
+}
+
+/// the result of `prev_of` is one of the items and is not new
+pub proof fn lemma_prev_member<T: Txn>(t: &T, ls: Seq<ItemView>)
+    ensures
+        prev_of(t, ls) is Some ==> exists|i: int| 0 <= i < ls.len() && #[trigger] ls[i] == prev_of(t, ls).unwrap() && !t.added(ls[i].id),
+    decreases ls.len(),
+{
+    if ls.len() > 0 && t.added(ls[0].id) {
+        lemma_prev_member(t, ls.skip(1));
+        if prev_of(t, ls) is Some {
+            let i = choose|i: int| 0 <= i < ls.skip(1).len() && #[trigger] ls.skip(1)[i] == prev_of(t, ls.skip(1)).unwrap() && !t.added(ls.skip(1)[i].id);
+            assert(ls[i + 1] == ls.skip(1)[i]);
+        }
+    } else if ls.len() > 0 {
+        assert(ls[0] == prev_of(t, ls).unwrap());
+    }
+}
+
+/// one step of the walk to the left
+pub proof fn lemma_prev_unfold<T: Txn>(t: &T, p: &Item)
+    ensures
+        prev_of(t, lefts(Some(p))) == (if !t.added(p.id) { Some(p.view_of()) } else { prev_of(t, lefts(p.left)) }),
+        prev_of(t, lefts(None)) == None::<ItemView>,
+{
+    let ls = lefts(Some(p));
+    assert(ls == seq![p.view_of()] + lefts(p.left));
+    assert(ls[0] == p.view_of());
+    assert(ls.skip(1) =~= lefts(p.left));
+}
+
+/// the property in the transaction's own terms (under A5'): with `prev` = the nearest left neighbour not added by the txn,
+/// the old value exists iff `prev` exists and was tombstoned BY this txn; a new entry is gone iff the txn deleted it; an
+/// entry that is not new is reported only when the txn deleted it
+pub proof fn lemma_key_change_literal<T: Txn>(t: &T, e: &Item)
+    requires
+        chain_wf(t, e),
+    ensures
+        ({
+            let p = prev_of(t, lefts(e.left));
+            let old = p is Some && t.deleted(p.unwrap().id);
+            &&& key_change(t, e) == (if is_new(t, e.id) {
+                    if t.deleted(e.id) {
+                        if old { Some(EntryChange::Removed(p.unwrap().values.last())) } else { None }
+                    } else {
+                        if old { Some(EntryChange::Updated(p.unwrap().values.last(), e.view_of().values.last())) } else { Some(EntryChange::Inserted(e.view_of().values.last())) }
+                    }
+                } else {
+                    if t.deleted(e.id) { Some(EntryChange::Removed(e.view_of().values.last())) } else { None }
+                })
+            // the values the code unwraps exist
+            &&& old ==> p.unwrap().values.len() > 0
+            &&& is_new(t, e.id) && !t.deleted(e.id) ==> e.view_of().values.len() > 0
+            &&& !is_new(t, e.id) && t.deleted(e.id) ==> e.view_of().values.len() > 0
+        }),
+{
+    let ev = e.view_of();
+    let c = chain(e);
+    let ls = lefts(e.left);
+    assert(c[0] == ev);
+    assert(c.skip(1) =~= ls);
+    let p = prev_of(t, ls);
+    lemma_prev_member(t, ls);
+    if p is Some {
+        let i = choose|i: int| 0 <= i < ls.len() && #[trigger] ls[i] == p.unwrap() && !t.added(ls[i].id);
+        assert(ls[i].deleted);
+        assert(c[i + 1] == ls[i]);
+        if t.deleted(p.unwrap().id) {
+            assert(vis_before(t, c[i + 1]));
+        }
+    }
+    if vis_before(t, ev) || vis_after(ev) {
+        assert(vis_before(t, c[0]) || vis_after(c[0]));
+    }
+}
+
+/// why M1 is needed: if the left neighbour were still alive (M1 violated), the property would call for `Removed(old)`
+/// while the txn-level reading (what the code computes) reports nothing
+pub proof fn lemma_without_m1<T: Txn>(t: &T, e: &Item, p: &Item)
+    requires
+        e.left == Some(p),
+        t.added(e.id) && e.view_of().deleted && t.deleted(e.id),
+        !t.added(p.id) && !p.view_of().deleted && !t.deleted(p.id),
+    ensures
+        key_change(t, e) == Some(EntryChange::Removed(p.view_of().values.last())),
+        prev_of(t, lefts(e.left)) == Some(p.view_of()) && !t.deleted(p.id),
+{
+    let c = chain(e);
+    assert(c[0] == e.view_of());
+    assert(c.skip(1) =~= lefts(e.left));
+    lemma_prev_unfold(t, p);
+}
+
+/// one round of the loop of `event_keys`
+pub open spec fn key_step<'a, T: Txn>(t: &T, m: Map<Str, ItemPtr<'a>>, opt: Option<Str>, keys: Map<Str, EntryChange>) -> Map<Str, EntryChange> {
+    match opt {
+        None => keys,
+        Some(k) => if m.contains_key(k) {
+            match key_change(t, m[k]) {
+                Some(c) => keys.insert(k, c),
+                None => keys,
+            }
+        } else {
+            keys
+        },
+    }
+}
+
+/// the rounds over an enumeration `s` of `keys_changed`, starting from the empty map
+pub open spec fn fold_keys<'a, T: Txn>(t: &T, m: Map<Str, ItemPtr<'a>>, s: Seq<Option<Str>>) -> Map<Str, EntryChange>
+    decreases s.len(),
+{
+    if s.len() == 0 {
+        Map::empty()
+    } else {
+        key_step(t, m, s.last(), fold_keys(t, m, s.drop_last()))
+    }
+}
+
+/// the map built by the rounds: exactly the changed keys that have an entry item and a change, each with its change
+pub proof fn lemma_event_keys_fold<'a, T: Txn>(t: &T, m: Map<Str, ItemPtr<'a>>, s: Seq<Option<Str>>)
+    ensures
+        forall|k: Str| #[trigger] fold_keys(t, m, s).contains_key(k) <==> s.contains(Some(k)) && m.contains_key(k) && key_change(t, m[k]) is Some,
+        forall|k: Str| #[trigger] fold_keys(t, m, s).contains_key(k) ==> fold_keys(t, m, s)[k] == key_change(t, m[k]).unwrap(),
+    decreases s.len(),
+{
+    let f = fold_keys(t, m, s);
+    assert forall|k: Str| (#[trigger] f.contains_key(k) <==> s.contains(Some(k)) && m.contains_key(k) && key_change(t, m[k]) is Some)
+        && (f.contains_key(k) ==> f[k] == key_change(t, m[k]).unwrap()) by {
+        if s.len() > 0 {
+            let p = s.drop_last();
+            let g = fold_keys(t, m, p);
+            lemma_event_keys_fold(t, m, p);
+            assert(f == key_step(t, m, s.last(), g));
+            assert(g.contains_key(k) <==> p.contains(Some(k)) && m.contains_key(k) && key_change(t, m[k]) is Some);
+            assert(g.contains_key(k) ==> g[k] == key_change(t, m[k]).unwrap());
+            if s.contains(Some(k)) {
+                let i = choose|i: int| 0 <= i < s.len() && s[i] == Some(k);
+                if i < p.len() {
+                    assert(p[i] == Some(k));
+                } else {
+                    assert(s.last() == Some(k));
+                }
+            }
+            if p.contains(Some(k)) {
+                let i = choose|i: int| 0 <= i < p.len() && p[i] == Some(k);
+                assert(s[i] == Some(k));
+            }
+            if s.last() == Some(k) {
+                assert(s[s.len() - 1] == Some(k));
+            }
+        } else {
+            if s.contains(Some(k)) {
+                let i = choose|i: int| 0 <= i < s.len() && s[i] == Some(k);
+            }
+        }
+    }
+}
+
+// ---------------------------------------------------------------------------------------------
+// the real code, part 1
+// ---------------------------------------------------------------------------------------------
 /*@extract yrs/src/types/mod.rs | - | enum Change @*/
 
 /*@extract yrs/src/types/mod.rs | - | enum EntryChange @*/
@@ -100,9 +1156,18 @@ pub trait Txn {
 /*@extract yrs/src/types/mod.rs | - | struct ChangeSet @*/
 
 impl<D> ChangeSet<D> {
-    pub closed spec fn added_ids(&self) -> Set<ID> { self.added@ }
-    pub closed spec fn deleted_ids(&self) -> Set<ID> { self.deleted@ }
-    pub closed spec fn delta_seq(&self) -> Seq<D> { self.delta@ }
+    pub closed spec fn added_ids(&self) -> Set<ID> {
+        self.added@
+    }
+
+    pub closed spec fn deleted_ids(&self) -> Set<ID> {
+        self.deleted@
+    }
+
+    pub closed spec fn delta_seq(&self) -> Seq<D> {
+        self.delta@
+    }
+
     /*@extract yrs/src/types/mod.rs | impl<D> ChangeSet<D> | fn new
     @ret r
     @sig
@@ -112,6 +1177,111 @@ impl<D> ChangeSet<D> {
 
 /*@extract yrs/src/types/mod.rs | - | fn event_change_set | rules=SUB(from=fn event_change_set;;to=fn event_change_set<T: Txn>)
 @ret r
+@sig
+    requires
+        // A5' (heap): visible items hold their content
+        list_wf(txn, list_of(start)),
+        // DOMAIN RESTRICTION: the unchecked u32 additions `removed + item.len()` / `retain + item.len()`
+        span(list_of(start)) <= u32::MAX,
+    ensures
+        // C11: the reported change list is an exact edit script from the content seen before to the content readable after
+        fits(ops_of(r.delta_seq()), before(txn, list_of(start))),
+        apply(ops_of(r.delta_seq()), before(txn, list_of(start))) == after(list_of(start)),
+        // the id sets are exactly the items that became visible / stopped being visible
+        r.added_ids() == added_set(txn, list_of(start)),
+        r.deleted_ids() == deleted_set(txn, list_of(start)),
+        // run-length canonical: neighbours differ in kind, no empty entry, no trailing Retain
+        canonical(ops_of(r.delta_seq())),
+@before 1 `stmt:loop`
+    let ghost mut vx_done = Seq::<ItemView>::empty();
+    proof {
+        lemma_ecs_init(txn);
+        assert(ops_of(delta@) =~= Seq::<Op>::empty());
+        assert(vx_done + list_of(current) =~= list_of(start));
+    }
+@loop 1
+    invariant
+        list_of(start) == vx_done + list_of(current),
+        span(vx_done) + span(list_of(current)) == span(list_of(start)),
+        span(list_of(start)) <= u32::MAX,
+        list_wf(txn, list_of(start)),
+        ecs_inv(txn, vx_done, all_ops(ops_of(delta@), pend_of(last_op))),
+        last_op is None ==> delta@.len() == 0,
+        added@ == added_set(txn, vx_done),
+        deleted@ == deleted_set(txn, vx_done),
+    ensures
+        current is None,
+    decreases current,
+@before 2 `stmt:if`
+    let ghost vx_d0 = delta@;
+    let ghost vx_p0 = last_op;
+    proof {
+        let v = item.view_of();
+        let rest = list_of(item.right);
+        assert(list_of(current) == seq![v] + rest);
+        lemma_span_cons(v, rest);
+        assert(list_of(start)[vx_done.len() as int] == v);
+        assert(item_wf(txn, v));
+        lemma_ecs_step(txn, vx_done, v, ops_of(vx_d0), pend_of(vx_p0));
+        lemma_views_push(txn, vx_done, v);
+        // pushing a pending entry commits its view
+        assert forall|c: Change| #[trigger] ops_of(vx_d0.push(c)) == ops_of(vx_d0).push(op_of(c)) by {
+            assert(ops_of(vx_d0.push(c)) =~= ops_of(vx_d0).push(op_of(c)));
+        }
+    }
+@after 2 `stmt:if`
+    proof {
+        let v = item.view_of();
+        let f = feed(ops_of(vx_d0), pend_of(vx_p0), item_op(txn, v));
+        // the code's builder state is the specified one
+        assert(ops_of(delta@) == f.0);
+        assert(pend_of(last_op) == f.1);
+        assert(vx_done.push(v) + list_of(item.right) =~= vx_done + list_of(current));
+        vx_done = vx_done.push(v);
+    }
+@after 1 `stmt:loop`
+    let ghost vx_d1 = delta@;
+    let ghost vx_p1 = last_op;
+    proof {
+        assert(vx_done + list_of(current) =~= vx_done);
+        lemma_ecs_finish(txn, vx_done, ops_of(vx_d1), pend_of(vx_p1));
+        assert forall|c: Change| #[trigger] ops_of(vx_d1.push(c)) == ops_of(vx_d1).push(op_of(c)) by {
+            assert(ops_of(vx_d1.push(c)) =~= ops_of(vx_d1).push(op_of(c)));
+        }
+    }
+@after 1 `stmt:match`
+    proof {
+        assert(ops_of(delta@) == finish(ops_of(vx_d1), pend_of(vx_p1)));
+    }
+@*/
+
+// ---------------------------------------------------------------------------------------------
+// the real code, part 2: the complete body of `for opt in keys_changed.iter()` of event_keys
+// ---------------------------------------------------------------------------------------------
+/*@extract yrs/src/types/mod.rs | - | region event_keys | stmt=stmt:if | stmtnth=1 | label=event_keys_step | rules=SUB(from=continue;;to=return)
+@header
+    pub fn event_keys_step<'a, T: Txn>(txn: &T, target: BranchPtr<'a>, opt: &Option<Str>, keys: &mut HashMap<Str, EntryChange>)
+@sig
+    requires
+        // A5' (heap + transaction coherence) for the chain of the key, if it has one
+        opt is Some && target.map@.contains_key(opt.unwrap()) ==> chain_wf(txn, target.map@[opt.unwrap()]),
+    ensures
+        // C11: the key's entry of the event is the exact change of the key's value
+        final(keys)@ == key_step(txn, target.map@, *opt, old(keys)@),
+@before 3 `stmt:if`
+    proof {
+        lemma_key_change_literal(txn, item);
+    }
+@loop 1
+    invariant
+        prev_of(txn, lefts(item.left)) == prev_of(txn, lefts(prev)),
+    ensures
+        prev_of(txn, lefts(item.left)) == (match prev { None => None::<ItemView>, Some(q) => Some(q.view_of()) }),
+    decreases prev,
+@before 4 `stmt:if`
+    proof {
+        lemma_prev_unfold(txn, p);
+    }
 @*/
 
 } // verus!
